@@ -33,7 +33,7 @@ func init() {
 		Real:     []string{"seehuhn.de/go/pdf SequentialScan, FileInfo.Read, scanner, Writer (working tree)"},
 		Stub:     []string{"disk image prefixes (crash at byte n)", "overwritten xref ranges", "io.ReaderAt personalities"},
 		Quick:    core.Budget{Runs: 1600, Secs: 150},
-		Thorough: core.Budget{Runs: 300000, Secs: 1500},
+		Thorough: core.Budget{Runs: 300000, Secs: 900},
 		Run:      Run,
 		Corners:  corners,
 	})
